@@ -96,7 +96,7 @@ def run(tier, seed):
                     din = A.read(rec['in'], table=table)
                     (m,) = core.run_driver('edits', [docrun.sx_edits_line(din, st[1], st[2], rec.get('oracle', []))])
                     code = int(m.split('|')[0].split()[2]) if '|' in m else 0
-                    f, kn = J.classify({'outside': code, 'nn': int(m.split('|')[0].split()[3]) if '|' in m else 0}, 'step %d raised %s' % (k, rec['err']))
+                    f, kn = J.classify({'outside': code, 'nn': int(m.split('|')[0].split()[3]) if '|' in m else 0, 'xp': int(m.split('|')[0].split()[4]) if '|' in m else 0}, 'step %d raised %s' % (k, rec['err']))
                     if kn: ck.known(kn[0], kn[1], case)
                     else: ck.violation('oracle', case, f)
                 else: ck.violation('oracle', case, 'step %d raised %s' % (k, rec['err']))
@@ -110,8 +110,8 @@ def run(tier, seed):
             if st[0] == 'edits':
                 c = {'d': d, 'b': rec['in'], 'din': din, 'edits': st[2], 'r': rec, 'dout': dout}
                 (m,) = core.run_driver('edits', [docrun.sx_edits_line(din, st[1], st[2], rec['oracle'])])
-                cnt, md = m.split('|', 1); ap, sk, code, nn = map(int, cnt.split())
-                c['outside'] = code; c['nn'] = nn
+                cnt, md = m.split('|', 1); ap, sk, code, nn, xp = map(int, cnt.split())
+                c['outside'] = code; c['nn'] = nn; c['xp'] = xp
                 f = E.oracle_C01.__wrapped__(c, st[1]) if hasattr(E.oracle_C01, '__wrapped__') else oracle_c01_author(c, st[1])
                 fail, known = J.classify(c, f, exception_ok=True)
                 if not fail and iss: fail, known = J.classify(c, 'round %d output is not structurally valid: %s' % (k, iss[0]))
